@@ -3,7 +3,8 @@ package lib
 // Bounded stand-in for C19 (labelled: NOT a proof; exhaustive over the message schema up to the stated
 // nesting depth). For each consensus-critical message type (Transaction, Block, QuorumCertificate) a
 // message is built in which every message-typed field (singular, list element, map value) down to
-// depth 4 is populated; then, for EVERY such nested message in turn, an unknown protobuf field is
+// depth 4 is populated (once with all other fields empty, once with every scalar, string, bytes and enum field set
+// as well); then, for EVERY such nested message in turn, an unknown protobuf field is
 // planted in that one place and the encoded bytes are fed to the real lib.Unmarshal, which must reject
 // them (an accepted unknown field gives a second encoding - and a second identity hash - of the same
 // signed content).
@@ -54,10 +55,61 @@ func verifPopulate(m protoreflect.Message, path string, depth int, nodes *[]veri
 	}
 }
 
+// verifFillScalars gives every scalar, string, bytes and enum field of m (lists: one element) a non-default value, so
+// that the message looks like real traffic: the decoder's walk meets populated non-message fields before and between
+// the nested messages.
+func verifFillScalars(m protoreflect.Message) {
+	fds := m.Descriptor().Fields()
+	for i := 0; i < fds.Len(); i++ {
+		fd := fds.Get(i)
+		if fd.IsMap() || fd.Kind() == protoreflect.MessageKind || fd.Kind() == protoreflect.GroupKind {
+			continue
+		}
+		if fd.ContainingOneof() != nil && !fd.HasOptionalKeyword() {
+			continue
+		}
+		var v protoreflect.Value
+		switch fd.Kind() {
+		case protoreflect.BoolKind:
+			v = protoreflect.ValueOfBool(true)
+		case protoreflect.StringKind:
+			v = protoreflect.ValueOfString("x")
+		case protoreflect.BytesKind:
+			v = protoreflect.ValueOfBytes([]byte{1})
+		case protoreflect.EnumKind:
+			ev := fd.Enum().Values()
+			v = protoreflect.ValueOfEnum(ev.Get(ev.Len() - 1).Number())
+		case protoreflect.Int32Kind, protoreflect.Sint32Kind, protoreflect.Sfixed32Kind:
+			v = protoreflect.ValueOfInt32(1)
+		case protoreflect.Uint32Kind, protoreflect.Fixed32Kind:
+			v = protoreflect.ValueOfUint32(1)
+		case protoreflect.Int64Kind, protoreflect.Sint64Kind, protoreflect.Sfixed64Kind:
+			v = protoreflect.ValueOfInt64(1)
+		case protoreflect.Uint64Kind, protoreflect.Fixed64Kind:
+			v = protoreflect.ValueOfUint64(1)
+		case protoreflect.FloatKind:
+			v = protoreflect.ValueOfFloat32(1)
+		case protoreflect.DoubleKind:
+			v = protoreflect.ValueOfFloat64(1)
+		default:
+			continue
+		}
+		if fd.IsList() {
+			m.Mutable(fd).List().Append(v)
+		} else {
+			m.Set(fd, v)
+		}
+	}
+}
+
 func TestVerifBoundedC19(t *testing.T) {
 	unknown := protowire.AppendVarint(protowire.AppendTag(nil, 9999, protowire.VarintType), 1)
 	evals, nontrivial, viol := 0, 0, 0
-	for _, mk := range []func() proto.Message{
+	for round, mk := range []func() proto.Message{
+		func() proto.Message { return new(Transaction) },
+		func() proto.Message { return new(Block) },
+		func() proto.Message { return new(QuorumCertificate) },
+		// second pass: the same three types with every scalar / bytes / string / enum field populated as well
 		func() proto.Message { return new(Transaction) },
 		func() proto.Message { return new(Block) },
 		func() proto.Message { return new(QuorumCertificate) },
@@ -65,6 +117,11 @@ func TestVerifBoundedC19(t *testing.T) {
 		top := mk()
 		var nodes []verifNode
 		verifPopulate(top.ProtoReflect(), string(top.ProtoReflect().Descriptor().Name()), 0, &nodes)
+		if round >= 3 {
+			for _, n := range nodes {
+				verifFillScalars(n.msg)
+			}
+		}
 		// sanity: the fully populated message without unknown fields must decode
 		clean, err := proto.Marshal(top)
 		if err != nil {
@@ -91,5 +148,5 @@ func TestVerifBoundedC19(t *testing.T) {
 		}
 		fmt.Printf("BOUNDED-SAMPLE %s: %d nested message positions checked\n", top.ProtoReflect().Descriptor().Name(), len(nodes))
 	}
-	fmt.Printf("BOUNDED-SUMMARY name=c19_unknown_fields evaluations=%d distinct_nontrivial=%d violations=%d bound=types:3,depth<=4,exhaustive-over-schema-paths\n", evals, nontrivial, viol)
+	fmt.Printf("BOUNDED-SUMMARY name=c19_unknown_fields evaluations=%d distinct_nontrivial=%d violations=%d bound=types:3,depth<=4,exhaustive-over-schema-paths,scalars:empty+populated\n", evals, nontrivial, viol)
 }
